@@ -53,19 +53,20 @@ type tEvent struct {
 }
 
 type tResult struct {
-	N      int      `json:"n"`
-	Kind   string   `json:"kind"`
-	Impl   string   `json:"impl"`
-	Glue   bool     `json:"glue"`
-	Ops    []tOp    `json:"ops"`
-	Events []tEvent `json:"events"`
-	Hang   bool     `json:"hang"`
-	End    int64    `json:"end"`
-	Grace  int64    `json:"grace"`
-	Slow   bool     `json:"slow"`
-	Rerun  bool     `json:"rerun"`
-	Races  int      `json:"races"`
-	Race   string   `json:"race_report,omitempty"`
+	N       int      `json:"n"`
+	Kind    string   `json:"kind"`
+	Impl    string   `json:"impl"`
+	Glue    bool     `json:"glue"`
+	Ops     []tOp    `json:"ops"`
+	Events  []tEvent `json:"events"`
+	Hang    bool     `json:"hang"`
+	End     int64    `json:"end"`
+	Grace   int64    `json:"grace"`
+	Slow    bool     `json:"slow"`
+	Rerun   bool     `json:"rerun"`
+	Skipped bool     `json:"skipped,omitempty"`
+	Races   int      `json:"races"`
+	Race    string   `json:"race_report,omitempty"`
 }
 
 const (
@@ -327,6 +328,10 @@ func timersComponent(impl string) component {
 			var r tResult
 			if err := json.Unmarshal([]byte(line), &r); err != nil {
 				panic(fmt.Sprintf("bad observation line: %v", err))
+			}
+			if r.Skipped {
+				o.count("skipped-after-three-hangs")
+				continue
 			}
 			term := fmt.Sprintf("mk_tcase %s %s %s %s %s %d", coqImpl, timersTrace(r.Events), coqBool(r.Hang),
 				coqZ(r.End), coqZ(r.Grace), r.Races)
